@@ -299,8 +299,14 @@ def labels_of(s):
     return set((s or "").replace(",", " ").split())
 
 
+# a property that rests on another one's invariant counts that property's clauses too (declared, not inferred):
+# C05 (crash images are disjoint and inside the file) and C12 (compact punches only free space) both rest on the layout partition of C02
+RESTS_ON = {"C05": ("C02",), "C12": ("C02",)}
+
+
 def serves(labels, pid):
-    return any(l == pid or l.startswith(pid + ".") for l in labels)
+    pids = (pid,) + RESTS_ON.get(pid, ())
+    return any(l == q or l.startswith(q + ".") for l in labels for q in pids)
 
 
 def main(argv):
